@@ -68,7 +68,8 @@ CorrOK(e) ==
           /\ ~Special(e.cov[i][j]) /\ ~Special(e.pear[i][j])
           /\ CovOK(e.rows[i], e.rows[j], e.S, e.d, e.cov[i][j], e.qe, e.tol)
           /\ Abs(e.cov[i][j] - e.cov[j][i]) <= e.tol                     \* symmetric
-          /\ PearsonOK(e.rows[i], e.rows[j], e.pear[i][j], e.qe, e.tol)
+          /\ Len(e.rows[1]) <= 5 => PearsonOK(e.rows[i], e.rows[j], e.pear[i][j], e.qe, e.tol)
+          /\ Abs(e.pear[i][j]) <= Q(e.qe) + e.tol
           /\ Abs(e.pear[i][j] - e.pear[j][i]) <= e.tol
     /\ \A i \in 1..nv : e.cov[i][i] >= -e.tol /\ Abs(e.pear[i][i] - Q(e.qe)) <= e.tol      \* diagonal: non-negative / one
     \* unchanged by a positive affine rescaling of variable k, sign flip of row/column k under negation
@@ -90,6 +91,9 @@ DevSide(e, a, b, m) ==
     /\ ~Special(m.rmse2) /\ Close(m.rmse2, sq, S * S * n, q, 2 * e.tol)    \* sqrt of that
     \* 10 log10(maxv^2 / mse) at its exact points: maxv^2 n = 10^k sq
     /\ \A k \in 0..3 : (sq > 0 /\ e.maxv * e.maxv * n = Pow10(k) * sq) => Abs(m.psnr - 10 * k * q) <= e.tol
+    \* a finite ratio whenever the arrays differ; the peak scaled by 10^hik moves it by exactly 20 hik dB
+    /\ sq > 0 => /\ ~Special(m.psnr) /\ ~Special(m.psnr_hi)
+                 /\ Abs(m.psnr_hi - m.psnr - 20 * e.hik * q) <= 2 * e.tol
 DevOK(e) ==
     /\ DevSide(e, e.a, e.b, e.fwd)
     /\ DevSide(e, e.b, e.a, e.swp)
